@@ -28,12 +28,12 @@ PROPS = {
     "C03": dict(fam=["tandem", "route", "cls", "renege", "prio", "schedblock", "infblock", "preblock"],
                 mc=["tandem", "tri", "route", "cls", "jockey", "infblock"], inv=["Inv_C03"], step=["Step_C03"]),
     "C06": dict(fam=["core1", "tandem", "renege"], mc=["core1", "tandem", "jockey"], inv=["Inv_C06"], step=["Step_C06"]),
-    "C07": dict(fam=["tandem", "cls", "route", "preblock", "infblock", "overblock", "ppblock"], mc=["tandem", "tri", "cls", "infblock"], inv=["Inv_C07"], step=["Step_C07"]),
+    "C07": dict(fam=["tandem", "cls", "route", "preblock", "infblock", "overblock", "ppblock", "slotblock"], mc=["tandem", "tri", "cls", "infblock"], inv=["Inv_C07"], step=["Step_C07"]),
     "C10": dict(fam=["core1", "tandem", "prio", "renege", "fault", "jockey"], mc=["core1", "tandem", "prio", "jockey", "slotpre"],
                 inv=["Inv_C10"], step=["Step_C10"]),
-    "C04": dict(fam=["tandem", "prio", "preempt", "sched", "schedpre", "core1", "schedblock", "preblock"],
+    "C04": dict(fam=["tandem", "prio", "preempt", "sched", "schedpre", "core1", "schedblock", "preblock", "ppzero"],
                 mc=["tandem", "preempt", "sched", "schedpre", "ppsched", "jsqsched"], inv=["Inv_C04"], step=["Step_C04"]),
-    "C12": dict(fam=["sched", "schedpre", "slot", "slotpre", "slotren", "preblock", "ppsched"], mc=["sched", "schedpre", "slot", "ppsched", "slotpre", "renegesched"], inv=["Inv_C12"], step=["Step_C12"]),
+    "C12": dict(fam=["sched", "schedpre", "slot", "slotpre", "slotren", "preblock", "ppsched", "ppzero", "slotblock"], mc=["sched", "schedpre", "slot", "ppsched", "slotpre", "renegesched"], inv=["Inv_C12"], step=["Step_C12"]),
     "C05": dict(fam=["core1", "tandem", "prio", "preempt", "renege", "cls", "sched", "schedpre", "ccw"],
                 mc=["core1", "tandem", "prio", "preempt", "renege", "sched", "schedpre", "ppsched", "renegesched"], inv=["Inv_C05"], step=["Step_C05"]),
     "C08": dict(fam=["prio", "preempt", "cls", "renege", "ccw", "sched", "slot"], mc=["prio", "preempt", "cls", "ccw", "slot", "ppsched", "slotpre"], inv=[], step=["Step_C08"]),
@@ -49,7 +49,7 @@ PROPS = {
                 mc=["core1", "stopcount", "renegesched", "jsqsched"], inv=[], step=["Step_C14"]),
 }
 
-ALLFAM = ["mix", "mix", "mix", "ppccw", "eps", "slotren", "preblock", "overblock", "trkccw", "ppblock", "pause", "date0", "jsqsched", "dead3", "jockey", "slotpre", "renegesched", "schedblock", "infblock", "ppsched", "ps", "core1", "tandem", "prio", "preempt", "cls", "clsren", "renege", "route", "sched", "schedpre", "schedblock",
+ALLFAM = ["mix", "mix", "mix", "ppccw", "eps", "slotren", "preblock", "overblock", "trkccw", "ppblock", "ppzero", "slotblock", "pause", "date0", "jsqsched", "dead3", "jockey", "slotpre", "renegesched", "schedblock", "infblock", "ppsched", "ps", "core1", "tandem", "prio", "preempt", "cls", "clsren", "renege", "route", "sched", "schedpre", "schedblock",
           "slot", "ccw", "trk", "reroute", "stopcount"]
 
 # vacuity gates (DESIGN section 5): witness tags that the validated traces of a check must contain at least once,
